@@ -157,3 +157,63 @@ Proof.
   change (N.to_nat 0) with O.
   destruct (validate_scan opts (false, false, O)) as [[csp ct] n]. reflexivity.
 Qed.
+
+(* ====================================================================================== *)
+(* Request::from_detailed_parameters — scheme handling (Generated.RequestGen)              *)
+(* ====================================================================================== *)
+Import RequestGen.
+
+Fixpoint rval (schema : str) (env : list (string * bool)) (f : rform) : option bool :=
+  match f with
+  | RSchemeIs s => Some (str_eqb schema (bs s))
+  | RFlag n => (fix look (e : list (string * bool)) : option bool :=
+                  match e with
+                  | [] => None                          (* a flag used before it is defined *)
+                  | (k, v) :: r => if String.eqb k n then Some v else look r
+                  end) env
+  | RNot g => match rval schema env g with Some b => Some (negb b) | None => None end
+  | RAnd a b => match rval schema env a, rval schema env b with
+                | Some x, Some y => Some (x && y) | _, _ => None end
+  | ROr a b => match rval schema env a, rval schema env b with
+               | Some x, Some y => Some (x || y) | _, _ => None end
+  end.
+(* the `let`s in source order: each may use the flags defined before it *)
+Fixpoint run_defs (schema : str) (ds : list (string * rform)) (env : list (string * bool))
+  : option (list (string * bool)) :=
+  match ds with
+  | [] => Some env
+  | (n, f) :: r => match rval schema env f with
+                   | Some v => run_defs schema r ((n, v) :: env)
+                   | None => None
+                   end
+  end.
+Fixpoint env_get (env : list (string * bool)) (n : string) : option bool :=
+  match env with [] => None | (k, v) :: r => if String.eqb k n then Some v else env_get r n end.
+
+Definition interp_request (h : str -> N) (raw_type schema source_hostname : str) (third : bool)
+  : option request :=
+  if is_nil schema then
+    let '(ht, hs, sup) := no_scheme_flags in
+    Some (mkReq (cpt_match_type raw_type) ht hs sup third (source_hostname_hashes h source_hostname))
+  else
+    match run_defs schema defs [] with
+    | None => None
+    | Some env =>
+        match env_get env "is_http", env_get env "is_https", env_get env "is_supported",
+              env_get env websocket_type_forced_by with
+        | Some ht, Some hs, Some sup, Some ws =>
+            Some (mkReq (if ws then RT_Websocket else cpt_match_type raw_type) ht hs sup third
+                        (source_hostname_hashes h source_hostname))
+        | _, _, _, _ => None
+        end
+    end.
+
+Theorem interp_request_is_model h raw_type schema source_hostname third :
+  interp_request h raw_type schema source_hostname third =
+  Some (from_detailed_parameters h raw_type schema source_hostname third).
+Proof.
+  unfold interp_request, from_detailed_parameters, no_scheme_flags.
+  destruct (is_nil schema); [reflexivity|].
+  unfold defs. cbn [run_defs rval String.eqb Ascii.eqb Bool.eqb env_get websocket_type_forced_by].
+  reflexivity.
+Qed.
